@@ -26,6 +26,7 @@ sys.path.insert(0, os.path.dirname(os.path.abspath(__file__)))
 import _sweep  # noqa: E402
 
 MAX_ABORTS = 4
+DISTINCT = [0]
 
 
 def read_answers(path):
@@ -114,6 +115,7 @@ def sweep(ctx, bin_path, label, wd, violations, per_prop, samples):
         n_before = len(violations)
         ran, checked, failed, reported = run_monitored(ctx, pid, ops, wd, label, bin_path, violations)
         total_ops += ran
+        DISTINCT[0] += len(set(ops))
         programs += sum(1 for l in ops if l.startswith("@"))
         total_checked += checked
         per_prop[f"{pid}/{label}"] = {"operations": ran, "unchecked_accesses_monitored": checked,
@@ -209,6 +211,7 @@ def own_workload_release(ctx, wd, violations, per_prop, samples):
 
 def run(ctx):
     violations, samples, per_prop = [], [], {}
+    DISTINCT[0] = 0
     wd = os.path.join(ctx["work"], "sweep")
     os.makedirs(wd, exist_ok=True)
     own_ops, own_checked = own_workload_release(ctx, wd, violations, per_prop, samples)
@@ -223,7 +226,7 @@ def run(ctx):
     n_checked += own_checked
     # concrete failing inputs first
     violations.sort(key=lambda v: 1 if v.get("no_failing_input") else 0)
-    cov = {"evaluations": n_ops, "distinct_nontrivial": n_ops, "traces_validated_against_impl": programs,
+    cov = {"evaluations": n_ops, "distinct_nontrivial": DISTINCT[0], "traces_validated_against_impl": programs,
            "programs": programs, "unchecked_accesses_monitored": n_checked, "monitored_workloads": per_prop}
     return {"violations": violations[:8], "coverage": cov, "samples": samples}
 
